@@ -364,3 +364,38 @@ UNITS["refine"] = {
     "root_uses": "",
     "extern": [],
 }
+
+# ------------------------------------------------------------------------------------------------
+# unit slots: the accept loop and the handler's destructor against a ghost model of the semaphore's permits (C15, scope-limited),
+# plus src/shutdown.rs
+SLOTS_HEADER = """#![feature(sized_hierarchy)]
+#![allow(unused_imports, dead_code, unused_variables, unused_mut, unused_parens, unused_braces, unused_unsafe)]
+use vstd::prelude::*;
+
+"""
+R_SLOT_GHOST = make_ghost_arg_rule(["acquire", "forget", "add_permits", "spawn", "listen", "drop"], skip_after={}, arg="Tracked(g)", param="Tracked(g): Tracked<&mut Slots>")
+# R-drop: the destructor is read as an ordinary method (it needs the ghost argument); that Rust calls it exactly once when the
+# Handler goes away -- also while unwinding -- is assumption TDROP
+R_DROP_IMPL = make_seq_rule("R-drop", "Drop for Handler<KV>", "Handler<KV>")
+R_ARC_SEM = make_seq_rule("R-arc", "Arc<Semaphore>", "std::sync::Arc<Semaphore>")
+UNITS["slots"] = {
+    "name": "slots",
+    "header": SLOTS_HEADER,
+    "derive_keep": ["Debug"],
+    "specs": ["server15.spec", "shutdown.spec"],
+    "parts": [
+        ("raw", "prelude/slots_prelude.rs", "prelude"),
+        ("raw", "lemmas/slots_lemmas.rs", "lemma"),
+        ("repo", "src/net/error.rs", {"mod": "error", "only": ["enum Error"]}),
+        ("raw", "lemmas/shutdown_views.rs", "lemma", {"mod": "shutdown"}),
+        ("repo", "src/shutdown.rs", {"mod": "shutdown", "only": ["struct Shutdown", "impl Shutdown::fn new", "impl Shutdown::fn is_shutdown", "impl Shutdown::fn recv"]}),
+        ("repo", "src/net/server.rs", {"mod": "server", "rules": (make_seq_rule("R-mut-self", "fn run(mut self)", "fn run(self)"),), "stub_all": True, "only": ["struct Handler", "impl Handler<KV>::fn run"]}),
+        ("repo", "src/net/server.rs", {"mod": "server", "rules": (R_SLOT_GHOST,), "header_rules": (R_DROP_IMPL,),
+                                       "outline": {"impl Listener<KV>::fn listen": {"name": "verif_conn_task", "args": "handler", "params": "handler: Handler<KV>"}},
+                                       "only": ["struct Listener", "impl Listener<KV>::fn accept", "impl Listener<KV>::fn listen", "impl Listener<KV>::fn verif_conn_task",
+                                                "impl Drop for Handler<KV>::fn drop"]}),
+    ],
+    "mod_uses": {"error": "", "shutdown": "", "server": "use std::sync::Arc;\nuse super::shutdown::Shutdown;"},
+    "root_uses": "pub use error::Error;\n",
+    "extern": [],
+}
